@@ -50,11 +50,12 @@ ApplyLocal(G, dims, sites, v) ==
       st  == [k \in 1..ns |-> Stride(dims, sites[k])]
       \* offset into v contributed by the gate index c (0-based)
       off == TLCEval([c \in 0..(dg - 1) |-> SumI(LAMBDA k : Digit(c, gd, k) * st[k], 1, ns)])
-  IN  [i1 \in 1..Size(dims) |->
+      Gd  == TLCEval(G.data)
+  IN  TLCEval([i1 \in 1..Size(dims) |->
          LET i    == i1 - 1
              r    == Flat([k \in 1..ns |-> Digit(i, dims, sites[k])], gd)
              base == i - off[r]
-         IN  SumG(LAMBDA c1 : GMul(G.data[r * dg + c1], v[base + off[c1 - 1] + 1]), 1, dg)]
+         IN  SumG(LAMBDA c1 : GMul(Gd[r * dg + c1], v[base + off[c1 - 1] + 1]), 1, dg)])
 
 Lower(dims, sites) == [k \in DOMAIN sites |-> Len(dims) + sites[k]]
 
@@ -99,13 +100,14 @@ SortPerm(sites) ==
   [m \in 1..k |-> CHOOSE j \in 1..k : Cardinality({i \in 1..k : sites[i] < sites[j]}) = m - 1]
 
 \* exchange the physical spaces of positions p and p+1 (what a swap of neighbouring sites does to the dense form)
+\* (results are forced with TLCEval: TLC's function values are lazy and would be recomputed at every access)
 SwapDims(dims, p) == [k \in DOMAIN dims |-> IF k = p THEN dims[p + 1] ELSE IF k = p + 1 THEN dims[p] ELSE dims[k]]
 SwapAdj(v, dims, p) ==
   LET d2 == SwapDims(dims, p)
-  IN  [i1 \in 1..Size(dims) |->
+  IN  TLCEval([i1 \in 1..Size(dims) |->
          LET dg  == [k \in DOMAIN d2 |-> Digit(i1 - 1, d2, k)]
              src == [k \in DOMAIN dims |-> IF k = p THEN dg[p + 1] ELSE IF k = p + 1 THEN dg[p] ELSE dg[k]]
-         IN  v[Flat(src, dims) + 1]]
+         IN  v[Flat(src, dims) + 1]])
 
 (* ---------------- geometry ------------------------------------------------ *)
 \* edges: a set/sequence of pairs <<a, b>> of site positions
